@@ -219,3 +219,14 @@ Example include_example :
   text (bf (nodes (render g ld 4) [NInclude (ELit (VStr [112]%N)) None []; NOutput (EPath [120]%N [])] c empty_buf)) = [55]%N
   /\ text (bf (nodes (render g ld 4) [NRender [112]%N None []; NOutput (EPath [120]%N [])] c empty_buf)) = [].
 Proof. vm_compute. split; reflexivity. Qed.
+
+(** * liquid tag, comment *)
+
+(** `{% liquid ... %}` is exactly the block of its line statements; a comment
+    writes nothing and changes nothing. *)
+Lemma liquid_tag_is_its_block g ld f body c b :
+  render g ld (S f) (NLiquid body) c b = block g (render g ld f) body c b.
+Proof. reflexivity. Qed.
+
+Lemma comment_is_inert g ld f c b : render g ld (S f) NComment c b = mk SDone c b.
+Proof. reflexivity. Qed.
